@@ -96,7 +96,14 @@ def _quant(ip, args, universal, pats=None):
         tvs = tv.items if isinstance(tv, PySeq) else [tv]
         pat = [z3.MultiPattern(*[_term(t) for t in tvs])] if len(tvs) > 1 else [_term(tvs[0])]
     if universal:
-        q = z3.ForAll([j], z3.Implies(guard, b), patterns=pat) if pat else z3.ForAll([j], z3.Implies(guard, b))
+        q = None
+        if pat:
+            try:
+                q = z3.ForAll([j], z3.Implies(guard, b), patterns=pat)
+            except z3.Z3Exception:
+                q = None
+        if q is None:
+            q = z3.ForAll([j], z3.Implies(guard, b))
     else:
         q = z3.Exists([j], z3.And(guard, b))
     return ZB(q)
@@ -196,3 +203,21 @@ def _boxs(ip, args, kw):
 @spec("unboxs")
 def _unboxs(ip, args, kw):
     return ZS(L.unbox_str(as_v(args[0])))
+
+
+@spec("is_dictlike_")
+def _is_dictlike(ip, args, kw):
+    return ZB(L.is_dictlike(as_v(args[0])))
+
+
+declare_pred("preexisting", L.V, L.B)   # ghost: the object existed when the function under contract was entered
+
+
+@spec("forall_v")
+def _forall_v(ip, args, kw):
+    clo = args[0]
+    names = [a.arg for a in clo.node.args.args]
+    vs = [L.fresh(n) for n in names]
+    tags = kw.get("tags")
+    b = as_bool(ip.call_closure(clo, [ZV(v, "Trace") for v in vs]))
+    return ZB(z3.ForAll(vs, b))
